@@ -501,6 +501,108 @@ Qed.
 Lemma strip0_id b : match b with 0 :: _ => false | _ => true end = true -> strip0 b = b.
 Proof. destruct b as [|x b]; [reflexivity|]. destruct x; [discriminate|reflexivity]. Qed.
 
+Lemma beq_spec a b : beq a b = true <-> a = b.
+Proof.
+  revert b. induction a as [|x a IH]; intros [|y b]; cbn; split; try discriminate; auto.
+  - intros H. apply andb_true_iff in H. destruct H as [H1 H2]. apply N.eqb_eq in H1.
+    apply IH in H2. subst. reflexivity.
+  - intros H. inversion H; subst. rewrite N.eqb_refl. apply IH. reflexivity.
+Qed.
+
+Lemma wf_firstn n b : wf_bytes b -> wf_bytes (firstn n b).
+Proof. intros H. rewrite <- (firstn_skipn n b) in H. apply wf_app in H. tauto. Qed.
+
+Lemma wf_skipn n b : wf_bytes b -> wf_bytes (skipn n b).
+Proof. intros H. rewrite <- (firstn_skipn n b) in H. apply wf_app in H. tauto. Qed.
+
+(* ---- node_announcement address descriptors ---- *)
+Lemma addrs_norm_props : forall f b v, wf_bytes b -> addrs_norm f b = Some v ->
+  wf_bytes v /\ (length v <= length b)%nat /\
+  forall f', (length v < f')%nat -> addrs_norm f' v = Some v.
+Proof.
+  induction f as [|f IH]; intros b v Hw; [discriminate|]. cbn [addrs_norm].
+  destruct b as [|t r].
+  { intros H; injection H as <-. split; [constructor|]. split; [lia|].
+    intros [|f'] Hf; [cbn in Hf; lia|reflexivity]. }
+  inversion Hw as [|? ? Ht Hr]; subst.
+  (* descriptors with a fixed-size payload that is kept as it is *)
+  assert (Hfixed : forall n, (t =? 0) = false ->
+            (forall f' x, addrs_norm (S f') (t :: x) =
+               match take n x with
+               | Some (h, r') => match addrs_norm f' r' with Some y => Some (t :: h ++ y) | None => None end
+               | None => None end) ->
+            match take n r with
+            | Some (h, r') => match addrs_norm f r' with Some x => Some (t :: h ++ x) | None => None end
+            | None => None end = Some v ->
+            wf_bytes v /\ (length v <= length (t :: r))%nat /\
+            forall f', (length v < f')%nat -> addrs_norm f' v = Some v).
+  { intros n E0 Hstep. destruct (take n r) as [[h r']|] eqn:Et; [|discriminate].
+    destruct (addrs_norm f r') as [x|] eqn:Ex; [|discriminate]. intros H; injection H as <-.
+    apply take_spec in Et. destruct Et as [-> Hl]. apply wf_app in Hr. destruct Hr as [Hh Hr'].
+    destruct (IH r' x Hr' Ex) as (Hwx & Hlx & Hix). split.
+    { constructor; [assumption|]. apply wf_app. split; assumption. }
+    split; [cbn [length]; rewrite !app_length; lia|].
+    intros [|f'] Hf; [cbn in Hf; lia|]. rewrite Hstep, <- Hl, take_app, Hix; [reflexivity|].
+    cbn [length] in Hf. rewrite app_length in Hf. lia. }
+  destruct (t =? 0) eqn:E0.
+  { intros H. destruct (IH r v Hr H) as (Hwv & Hlv & Hiv). split; [assumption|].
+    split; [cbn [length]; lia|assumption]. }
+  destruct (t =? 1) eqn:E1.
+  { apply N.eqb_eq in E1. subst t. apply Hfixed; [reflexivity|]. intros; reflexivity. }
+  destruct (t =? 2) eqn:E2.
+  { apply N.eqb_eq in E2. subst t.
+    destruct (take 18 r) as [[h r']|] eqn:Et; [|discriminate].
+    remember (skipn 12 h) as s4 eqn:Es4.
+    destruct (addrs_norm f r') as [x|] eqn:Ex; [|discriminate]. intros H; injection H as <-.
+    apply take_spec in Et. destruct Et as [-> Hl]. apply wf_app in Hr. destruct Hr as [Hh Hr'].
+    destruct (IH r' x Hr' Ex) as (Hwx & Hlx & Hix).
+    assert (Hlh : length h = 18%nat) by (unfold blen in Hl; lia).
+    assert (Hls : length s4 = 6%nat) by (rewrite Es4, skipn_length; lia).
+    assert (Hws : wf_bytes s4) by (rewrite Es4; apply wf_skipn; assumption).
+    assert (Hs : blen s4 = 6) by (unfold blen; lia).
+    clear Es4.
+    destruct (v4_mapped h) eqn:Em.
+    - split.
+      { apply wf_app. split; [|assumption]. apply Forall_cons; [lia|assumption]. }
+      split.
+      { cbn [length app]. rewrite !app_length. lia. }
+      intros [|f'] Hf; [cbn in Hf; lia|]. cbn [app addrs_norm N.eqb Pos.eqb].
+      rewrite <- Hs, take_app, Hix; [reflexivity|].
+      cbn [length app] in Hf. rewrite app_length in Hf. lia.
+    - split.
+      { apply wf_app. split; [|assumption]. apply Forall_cons; [lia|assumption]. }
+      split.
+      { cbn [length app]. rewrite !app_length. lia. }
+      intros [|f'] Hf; [cbn in Hf; lia|]. cbn [app addrs_norm N.eqb Pos.eqb].
+      rewrite <- Hl, take_app, Hix, Em; [reflexivity|].
+      cbn [length app] in Hf. rewrite app_length in Hf. lia. }
+  destruct (t =? 3) eqn:E3.
+  { apply N.eqb_eq in E3. subst t. apply Hfixed; [reflexivity|]. intros; reflexivity. }
+  destruct (t =? 4) eqn:E4.
+  { apply N.eqb_eq in E4. subst t. apply Hfixed; [reflexivity|]. intros; reflexivity. }
+  destruct (t =? 5) eqn:E5.
+  { apply N.eqb_eq in E5. subst t. destruct r as [|l r1]; [discriminate|].
+    destruct (take (l + 2) r1) as [[h r']|] eqn:Et; [|discriminate].
+    destruct (addrs_norm f r') as [x|] eqn:Ex; [|discriminate]. intros H; injection H as <-.
+    inversion Hr as [|? ? Hl8 Hr1]; subst.
+    apply take_spec in Et. destruct Et as [-> Hl]. apply wf_app in Hr1. destruct Hr1 as [Hh Hr'].
+    destruct (IH r' x Hr' Ex) as (Hwx & Hlx & Hix). split.
+    { constructor; [lia|]. constructor; [assumption|]. apply wf_app. split; assumption. }
+    split; [cbn [length]; rewrite !app_length; lia|].
+    intros [|f'] Hf; [cbn in Hf; lia|]. cbn [addrs_norm N.eqb Pos.eqb].
+    rewrite <- Hl, take_app, Hix; [reflexivity|].
+    cbn [length] in Hf. rewrite app_length in Hf. lia. }
+  intros H; injection H as <-. split; [assumption|]. split; [lia|].
+  intros [|f'] Hf; [cbn in Hf; lia|]. cbn [addrs_norm]. rewrite E0, E1, E2, E3, E4, E5. reflexivity.
+Qed.
+
+Lemma addrs_parse_props b v : wf_bytes b -> addrs_parse b = Some v ->
+  wf_bytes v /\ (length v <= length b)%nat /\ addrs_parse v = Some v.
+Proof.
+  unfold addrs_parse. intros Hw H. destruct (addrs_norm_props _ _ _ Hw H) as (H1 & H2 & H3).
+  split; [assumption|]. split; [assumption|]. apply H3. lia.
+Qed.
+
 Section FieldProofs.
   Variable on_curve : bytes -> bool.
   Notation valid_f := (valid_f on_curve).
@@ -556,6 +658,19 @@ Section FieldProofs.
       assert (Hx : blen b / N.of_nat (S n') * N.of_nat (S n') = blen b).
       { pose proof (N.div_mod (blen b) (N.of_nat (S n'))) as Hd. lia. }
       rewrite Hx, take_app. reflexivity.
+    - (* FAlias *) apply andb_true_iff in Hv. destruct Hv as [Hv Hc].
+      apply andb_true_iff in Hv. destruct Hv as [_ Hl]. apply Nat.eqb_eq in Hl.
+      rewrite Hl. cbn [Nat.eqb]. eexists; split; [reflexivity|]. intros r.
+      cbn [Model.dec_f]. change 32 with (N.of_nat 32).
+      rewrite take_len_app by assumption. rewrite Hc. reflexivity.
+    - (* FAddrs *) apply andb_true_iff in Hv. destruct Hv as [Hv Hp].
+      apply andb_true_iff in Hv. destruct Hv as [_ Hl]. rewrite Hl.
+      apply N.leb_le in Hl. eexists; split; [reflexivity|]. intros r.
+      cbn [Model.dec_f]. rewrite <- app_assoc, read_be_app, pow2, N.mod_small by lia.
+      rewrite take_app. destruct (addrs_parse b) as [b'|]; [|discriminate].
+      apply beq_spec in Hp. subst b'. reflexivity.
+    - (* FBigSize *) apply N.ltb_lt in Hv. eexists; split; [reflexivity|]. intros r.
+      cbn [Model.dec_f]. rewrite bigsize_dec_enc by assumption. reflexivity.
   Qed.
 
   (* terminal fields swallow the rest *)
@@ -651,6 +766,32 @@ Section FieldProofs.
       { rewrite (proj2 (wf_bytesb_spec _) Hh). reflexivity. }
       split; [assumption|]. eexists; split; [reflexivity|].
       split; [rewrite !app_length, be_enc_length; lia|]. intros _. rewrite <- app_assoc. reflexivity.
+    - (* FAlias *) destruct (take 32 b) as [[h t]|] eqn:E; [|discriminate].
+      destruct (utf8_valid h) eqn:Ec; [|discriminate].
+      intros H; inversion H; subst. apply take_spec in E. destruct E as [-> Hl].
+      apply wf_app in Hw. destruct Hw as [Hh Ht].
+      assert (length h = 32%nat) by (unfold blen in Hl; lia).
+      cbn [valid_f enc_f]. split.
+      { rewrite Ec, (proj2 (wf_bytesb_spec _) Hh), (proj2 (Nat.eqb_eq _ _) H0). reflexivity. }
+      split; [assumption|]. rewrite (proj2 (Nat.eqb_eq _ _) H0).
+      eexists; split; [reflexivity|]. split; [rewrite app_length; lia|auto].
+    - (* FAddrs *) destruct (read_be 2 b) as [[l t]|] eqn:E; [|discriminate].
+      apply read_be_spec in E; [|assumption]. destruct E as (-> & Hl & Ht). rewrite pow2 in Hl.
+      destruct (take l t) as [[h t']|] eqn:E2; [|discriminate].
+      destruct (addrs_parse h) as [v0|] eqn:E3; [|discriminate].
+      intros H; inversion H; subst. apply take_spec in E2. destruct E2 as [-> Hlen].
+      apply wf_app in Ht. destruct Ht as [Hh Ht'].
+      destruct (addrs_parse_props h v0 Hh E3) as (Hwv & Hlv & Hiv).
+      cbn [valid_f enc_f].
+      assert (Hle : (blen v0 <=? 65535) = true) by (apply N.leb_le; unfold blen in *; lia).
+      rewrite Hle, Hiv, (proj2 (beq_spec _ _) eq_refl). split.
+      { rewrite (proj2 (wf_bytesb_spec _) Hwv). reflexivity. }
+      split; [assumption|]. eexists; split; [reflexivity|].
+      split; [rewrite !app_length, !be_enc_length; lia|discriminate].
+    - (* FBigSize *) destruct (bigsize_dec b) as [[x t]|e] eqn:E; [|discriminate].
+      intros H; inversion H; subst. apply bigsize_dec_spec in E; [|assumption].
+      destruct E as (-> & Hx & Ht). cbn [valid_f enc_f]. split; [apply N.ltb_lt; assumption|].
+      split; [assumption|]. eexists; split; [reflexivity|]. split; [rewrite app_length; lia|auto].
     - (* FRest *) intros H; inversion H; subst. cbn [valid_f enc_f].
       split; [apply wf_bytesb_spec; assumption|]. split; [constructor|].
       eexists; split; [reflexivity|]. split; [cbn; lia|]. intros _. rewrite app_nil_r. reflexivity.
